@@ -114,6 +114,8 @@ def args_of(cfg, track=None):
         a += ["--RFPhaseModAmplitude", 1, "--RFPhaseModFrequency", 40000]
     if track:
         a += ["--tracking", track, "--FPTrack", 1]
+    if cfg.get("renorm") is not None:      # binary-side axis (the label trace does not depend on it)
+        a += ["--RenormalizeCharge", cfg["renorm"]]
     return a
 
 
@@ -145,6 +147,24 @@ def observe(exe, cfg, sigat, wd, tag, track=None, inherit_ignored=False):
         if ln.rstrip().endswith("Finished.") or ln.rstrip().endswith("Aborted."):
             word = ln.rstrip().split()[-1]
     return dict(rc=r["rc"], log=r["log"], cmd=r["cmd"] + ("   [env INOVESA_VERIF_SIGINT_AT=%s%s]" % (env.get("INOVESA_VERIF_SIGINT_AT", ""), "; started with SIGINT ignored (trap '' INT)" if inherit_ignored else "")), labels=labels, doc=doc, word=word)
+
+
+def final_record_problems(term, ob, dense):
+    """'one final record for the state reached': the last record of a run that stopped after s steps holds what a run of the same physics that writes
+    every step holds for step s - dataset by dataset, bit for bit (dense = observation of that run: outstep 1, every phase space saved)"""
+    P = []
+    doc, dd = ob["doc"], dense["doc"]
+    if "error" in doc or "error" in dd:
+        return P
+    s = int(term["step"])
+    for name in TIME_DS + ["/WakePotential/data", "/PhaseSpace/data"]:
+        a, b = doc["datasets"].get(name), dd["datasets"].get(name)
+        if not a or not b or not a.get("rowhash") or not b.get("rowhash") or s >= len(b["rowhash"]):
+            continue
+        if a["rowhash"][-1] != b["rowhash"][s]:
+            P.append(("final-record-is-not-the-state-reached", "%s: the final record (run stopped after %d steps) differs from the record of step %d of the run that writes every step" % (name, s, s)))
+            break
+    return P
 
 
 def dim0(doc, name):
